@@ -143,7 +143,7 @@ def swap_alphabet(n, env):
           ((1, 2), (2, 3), (3, 1)), ((2, 4), (4, 2)), ((0, 1), (1, 2), (2, 0))]
     ops = [("sw", s_) for s_ in sw if max(max(p_) for p_ in s_) < n]
     ops.append(("sw", ()))          # the empty dictionary: what a cancelled pair of swaps leaves behind
-    ops += [("bs", 0, 1, env.R2, "Rx", 0), ("ps", n - 1, env.PH[0], 0), ("loss", 2, env.L[1]),
+    ops += [("bs", 0, 1, env.R2, "Rx", 0), ("bs", 3, 1, env.R[1], "H", 0), ("ps", n - 1, env.PH[0], 0), ("loss", 2, env.L[1]),
             ("uni", 2, 1, False), ("add", "bs2", n - 2, True), ("bar", None),
             ("add", "h3mid", n - 2, False), ("add", "h3io", 1, False)]
     return ops
